@@ -29,3 +29,32 @@ fn q_lt_ge_complement_if() {
     std::mem::forget((a, b, lt, ge));
     assert!(ok);
 }
+
+// ---- C20-O1 extra shapes
+fn shaped2(k: u8) -> Value {
+    match k {
+        0 => Value::Int(kani::any()),
+        1 => Value::Float(kani::any()),        // NaN allowed
+        2 => Value::Bool(kani::any()),
+        3 => Value::DateTime(kani::any()),
+        _ => Value::Null,
+    }
+}
+fn laws(a: Value, b: Value, c: Value) {
+    let ab = crate::evaluator::order_compare(&a, &b);
+    let ba = crate::evaluator::order_compare(&b, &a);
+    let bc = crate::evaluator::order_compare(&b, &c);
+    let ac = crate::evaluator::order_compare(&a, &c);
+    std::mem::forget((a, b, c));
+    assert!(ab == ba.reverse());
+    if ab != Ordering::Greater && bc != Ordering::Greater { assert!(ac != Ordering::Greater); }
+    if ab == Ordering::Equal && bc == Ordering::Equal { assert!(ac == Ordering::Equal); }
+}
+#[kani::proof] fn q20_laws_f_f_f_nan() { laws(shaped2(1), shaped2(1), shaped2(1)); }
+#[kani::proof] fn q20_laws_b_f_n() { laws(shaped2(2), shaped2(1), shaped2(4)); }
+#[kani::proof] fn q20_laws_d_i_b() { laws(shaped2(3), shaped2(0), shaped2(2)); }
+#[kani::proof] fn q20_laws_i_i_f_small() {
+    let a = shaped2(0); let b = shaped2(0); let c = shaped2(1);
+    if let (Value::Int(x), Value::Int(y)) = (&a, &b) { kani::assume(x.unsigned_abs() <= (1u64 << 53) && y.unsigned_abs() <= (1u64 << 53)); }
+    laws(a, c, b);
+}
